@@ -17,18 +17,18 @@ theorem HistLe.mono {s : St} {ep ep' : Nat} (h : HistLe s ep) (hle : ep ≤ ep')
 /-- LP-denom native funds attached to a call -/
 def lpOffer (c : Cfg) (e : Env) : Nat := att c 0 (fundsOf c e.offers)
 
-/-- LP-denom funds attached to a call that the handler neither records nor returns: anything attached
-    to a handler that takes no LP; for `open_flow` with the fee in the LP denom and a cw20 flow asset the
-    over-paid part of the fee (known finding C11-lp-denom-fee-overpaid-kept) -/
+/-- LP-denom funds attached to a call that the handler neither records nor returns: LP coins attached
+    to a handler that takes no LP — `close_position`, `withdraw`, `claim`, `snapshot`, `close_flow`, an
+    `expand_flow` in another asset, an `open_flow` whose flow asset and fee asset are both not the LP.
+    Nothing else: an `open_flow` that charges its fee in the LP denom keeps the fee's worth for the
+    collector, the flow amount when the flow asset is the LP too, and refunds every unit beyond that
+    (whatever the kind of the flow asset), so it contributes 0. -/
 def strayOf (c : Cfg) (e : Env) : Op → Nat
   | .openPos _ _ _ => 0
   | .expandPos _ _ _ => 0
   | .helperDeposit _ _ _ => 0
   | .helperDepositAs _ _ _ _ _ => 0
-  | .openFlow a _ _ _ =>
-    if a = 0 then 0
-    else if c.feeAsset = 0 then (if c.native a = true then 0 else lpOffer c e - c.feeAmt)
-    else lpOffer c e
+  | .openFlow a _ _ _ => if a = 0 then 0 else if c.feeAsset = 0 then 0 else lpOffer c e
   | .expandFlow _ a _ _ => if a = 0 then 0 else lpOffer c e
   | _ => lpOffer c e
 
@@ -105,8 +105,8 @@ theorem openFlow_ledger_eq0 {c : Cfg} {e : Env} {a amount x y : Nat} {st en : Op
     · subst hm1
       simp only [outsOf, insOf]
       rcases hx with ⟨_, hafa, hx1, hx2⟩ | ⟨hns, hx1⟩
-      · have hno : ¬ ((c.feeAmt < paid ∧ c.native a = true ∧ a ≠ c.feeAsset) ∧ c.feeAsset = 0) :=
-          fun hh => hh.1.2.2 hafa
+      · have hno : ¬ ((c.feeAmt < paid ∧ ¬ (c.native a = true ∧ a = c.feeAsset)) ∧ c.feeAsset = 0) :=
+          fun hh => hh.1.2 ⟨hna, hafa⟩
         simp only [if_neg hno]
         by_cases h1 : a = 0
         · have h2 : c.feeAsset = 0 := by rw [← hafa]; exact h1
@@ -119,33 +119,39 @@ theorem openFlow_ledger_eq0 {c : Cfg} {e : Env} {a amount x y : Nat} {st en : Op
         by_cases h1 : a = 0
         · have h2 : ¬ c.feeAsset = 0 := fun hh => hne (by rw [h1, hh])
           have hf0 : att c 0 (fundsOf c e.offers) = x := by rw [h1] at hf; exact hf
-          have hno : ¬ ((c.feeAmt < paid ∧ c.native a = true ∧ a ≠ c.feeAsset) ∧ c.feeAsset = 0) :=
+          have hno : ¬ ((c.feeAmt < paid ∧ ¬ (c.native a = true ∧ a = c.feeAsset)) ∧ c.feeAsset = 0) :=
             fun hh => h2 hh.2
           simp only [if_pos h1, if_neg h2, if_neg hno]; omega
         · by_cases h2 : c.feeAsset = 0
           · have hpaid0 : att c 0 (fundsOf c e.offers) = paid := by rw [h2] at hpaid; exact hpaid
-            simp only [if_neg h1, if_pos h2, if_pos hna]
-            by_cases h3 : (c.feeAmt < paid ∧ c.native a = true ∧ a ≠ c.feeAsset) ∧ c.feeAsset = 0
+            simp only [if_neg h1, if_pos h2]
+            by_cases h3 : (c.feeAmt < paid ∧ ¬ (c.native a = true ∧ a = c.feeAsset)) ∧ c.feeAsset = 0
             · simp only [if_pos h3]; omega
-            · have : ¬ c.feeAmt < paid := fun hh => h3 ⟨⟨hh, hna, hne⟩, h2⟩
+            · have : ¬ c.feeAmt < paid := fun hh => h3 ⟨⟨hh, hns⟩, h2⟩
               simp only [if_neg h3]; omega
-          · have hno : ¬ ((c.feeAmt < paid ∧ c.native a = true ∧ a ≠ c.feeAsset) ∧ c.feeAsset = 0) :=
+          · have hno : ¬ ((c.feeAmt < paid ∧ ¬ (c.native a = true ∧ a = c.feeAsset)) ∧ c.feeAsset = 0) :=
               fun hh => h2 hh.2
             simp only [if_neg h1, if_neg h2, if_neg hno]; omega
-    · have hno : ¬ ((c.feeAmt < paid ∧ c.native a = true ∧ a ≠ c.feeAsset) ∧ c.feeAsset = 0) :=
-        fun hh => by rw [hna] at hh; cases hh.1.2.1
+    · have hns : ¬ (c.native a = true ∧ a = c.feeAsset) := fun hh => by rw [hna] at hh; cases hh.1
       obtain ⟨p1, p2⟩ := io_pull_inc hs 0 a y
       rw [hm1, p1, p2]
-      simp only [if_neg hno]
       by_cases h1 : a = 0
       · have h2 : ¬ c.feeAsset = 0 := fun hh => by rw [h1] at hna; rw [hh, hna] at hnf; cases hnf
         have h0 : c.native 0 = false := by rw [← h1]; exact hna
-        simp only [if_pos h1, if_neg h2, att_nonnative h0]; omega
+        have hno : ¬ ((c.feeAmt < paid ∧ ¬ (c.native a = true ∧ a = c.feeAsset)) ∧ c.feeAsset = 0) :=
+          fun hh => h2 hh.2
+        simp only [if_pos h1, if_neg h2, if_neg hno, att_nonnative h0]; omega
       · by_cases h2 : c.feeAsset = 0
-        · have hna' : ¬ c.native a = true := by rw [hna]; simp
+        · -- fee in the native LP denom, cw20 flow asset: the excess goes back to the sender
           have hpaid0 : att c 0 (fundsOf c e.offers) = paid := by rw [h2] at hpaid; exact hpaid
-          simp only [if_neg h1, if_pos h2, if_neg hna']; omega
-        · simp only [if_neg h1, if_neg h2]; omega
+          simp only [if_neg h1, if_pos h2]
+          by_cases h3 : (c.feeAmt < paid ∧ ¬ (c.native a = true ∧ a = c.feeAsset)) ∧ c.feeAsset = 0
+          · simp only [if_pos h3]; omega
+          · have : ¬ c.feeAmt < paid := fun hh => h3 ⟨⟨hh, hns⟩, h2⟩
+            simp only [if_neg h3]; omega
+        · have hno : ¬ ((c.feeAmt < paid ∧ ¬ (c.native a = true ∧ a = c.feeAsset)) ∧ c.feeAsset = 0) :=
+            fun hh => h2 hh.2
+          simp only [if_neg h1, if_neg h2, if_neg hno]; omega
   · obtain ⟨q1, q2⟩ := io_pull_other hs collector_ne_inc 0 c.feeAsset c.feeAmt (src := e.sender)
     rw [hm0, q1, q2]
     rcases openFlowAsset_spec hasset with ⟨hna, hy, hm1, hfunds⟩ | ⟨hna, hm1, hy⟩
@@ -157,7 +163,7 @@ theorem openFlow_ledger_eq0 {c : Cfg} {e : Env} {a amount x y : Nat} {st en : Op
         simp only [if_pos h1]; omega
       · by_cases h2 : c.feeAsset = 0
         · have h0 : c.native 0 = false := by rw [← h2]; exact hnf
-          simp only [if_neg h1, if_pos h2, if_pos hna, att_nonnative h0]
+          simp only [if_neg h1, if_pos h2, att_nonnative h0]
         · simp only [if_neg h1, if_neg h2]; omega
     · obtain ⟨p1, p2⟩ := io_pull_inc hs 0 a y
       rw [hm1, p1, p2]
@@ -166,8 +172,7 @@ theorem openFlow_ledger_eq0 {c : Cfg} {e : Env} {a amount x y : Nat} {st en : Op
         simp only [if_pos h1, att_nonnative h0]; omega
       · by_cases h2 : c.feeAsset = 0
         · have h0 : c.native 0 = false := by rw [← h2]; exact hnf
-          have hna' : ¬ c.native a = true := by rw [hna]; simp
-          simp only [if_neg h1, if_pos h2, if_neg hna', att_nonnative h0]; omega
+          simp only [if_neg h1, if_pos h2, att_nonnative h0]
         · simp only [if_neg h1, if_neg h2]; omega
 
 /-! ### every handler -/
